@@ -324,6 +324,9 @@ type world struct {
 	commitRoot root // Root() right after the last Commit
 	reopens    int
 
+	db       kvstore.KVStore // shared database: the instance lives in one realm of it, twins in sibling realms
+	siblings int
+
 	byRoot     map[root]string // per-run table
 	byContents map[string]root
 }
@@ -584,7 +587,18 @@ func (w *world) twin() {
 		order = append(order, label(ki))
 	}
 	s.Logf("twin order=%v detour=%s at=%d", order, twinNoise[noise], at)
-	t := w.f.open(mapdb.NewMapDB())
+	// the twin lives in a store of its own or, when the run uses a shared database, in a sibling realm of it
+	var tstore kvstore.KVStore = mapdb.NewMapDB()
+	sibling := w.db != nil && s.Choose(2) == 1
+	if sibling {
+		w.siblings++
+		var err error
+		if tstore, err = w.db.WithExtendedRealm([]byte{'t', byte(w.siblings)}); err != nil {
+			s.Fail("error", w.sig("sibling-realm"), "WithExtendedRealm failed: %v", err)
+		}
+		s.Probe("twin-in-sibling-realm-of-the-same-database")
+	}
+	t := w.f.open(tstore)
 	if t.restored() {
 		s.Fail("reopen", w.sig("restored", "flag", "fresh"), "WasRestoredFromStorage()=true on an instance over an empty store")
 	}
@@ -628,6 +642,17 @@ func (w *world) twin() {
 	if n := t.size(); n != w.count() {
 		s.Fail("model", w.sig("size", "twin"), "twin Size()=%d, contents %s", n, w.f.describe(w.contents()))
 	}
+	if sibling {
+		// the sibling commits, drops one of the entries it shares with the main instance and commits again: instances
+		// in different realms of one database are independent, whatever the sibling's tree discards
+		w.noErr("commit", t.commit())
+		if len(present) > 0 {
+			_, err := t.del(universe[present[s.Choose(len(present))]])
+			w.noErr("delete", err)
+			w.noErr("commit", t.commit())
+		}
+		w.audit("sibling", "main-after-sibling-commit")
+	}
 }
 
 const (
@@ -658,6 +683,14 @@ func body(s *simrt.Sim, f *flavour) {
 		s.Fail("root-injective", f.name+"-fresh-instances", "%s", f.canonFail)
 	}
 	w := &world{s: s, f: f, store: mapdb.NewMapDB(), model: make([]int8, f.nkeys), byRoot: map[root]string{}, byContents: map[string]root{}}
+	if s.Choose(2) == 1 {
+		// the instance lives in a realm of a database it shares with sibling instances (twins)
+		w.db = w.store
+		var err error
+		if w.store, err = w.db.WithExtendedRealm([]byte{'m'}); err != nil {
+			s.Fail("error", f.name+"-realm", "WithExtendedRealm failed: %v", err)
+		}
+	}
 	for i := range w.model {
 		w.model[i] = -1
 	}
